@@ -591,6 +591,44 @@ func genRandom(r *rng.R, cw *casefile.Writer, conc bool) {
 	w.emit(cw, class, true)
 }
 
+// boundary schedules: every entry has size exactly 100 and the limits are multiples of 100, so that the
+// comparisons of Rotate (lastGenSize vs maxGenSize), Cleanup (totalSize vs sizeLimit) and markStale
+// (bytes vs sizeToClean) are hit with equality
+func genBoundary(r *rng.R, cw *casefile.Writer) {
+	w := newWorld(rng.Pick(r, []uint64{200, 300, 400, 500, 2000, 4000}))
+	w.do(Evt{Op: "new"})
+	if r.Bool() {
+		w.do(Evt{Op: "new"})
+	}
+	var v int64 = 100
+	nextKey := 0
+	n := r.Range(6, 20)
+	for i := 0; i < n && w.dead == ""; i++ {
+		switch x := r.Intn(100); {
+		case x < 45:
+			v++
+			k := nextKey
+			if nextKey > 0 && r.Chance(1, 4) {
+				k = r.Intn(nextKey) // an old key: a hit moves the entry to the current generation (or a reload)
+			} else {
+				nextKey++
+			}
+			w.do(Evt{Op: "call", C: r.Intn(len(w.caches)), K: k, V: v, Sz: int64(100*r.Range(1, 2)) - int64(w.esz)})
+			if id := len(w.thr) - 1; w.dead == "" && w.thr[id].status == 10 {
+				w.do(Evt{Op: "resume", T: id})
+			}
+		case x < 70:
+			w.do(Evt{Op: "rotate"})
+		case x < 92:
+			w.do(Evt{Op: "cleanup"})
+		default:
+			w.do(Evt{Op: "gcgens"})
+		}
+	}
+	w.drain()
+	w.emit(cw, "boundary", true)
+}
+
 // exhaustive: n caches, every subset of them released (in the given order), then ReleaseBuckets
 // and the maintenance calls that show whether a live cache fell out of the cleaner's management
 func genReleaseSubset(cw *casefile.Writer, n int, mask int, order []int, lim uint64) {
@@ -741,6 +779,9 @@ func main() {
 	}
 	cw.Exhaust = true
 	cw.Extra["exhaustive_scope"] = fmt.Sprintf("every subset of released caches for 1..%d caches sharing a cleaner (every release order for <= 3 caches)", maxN)
+	for i := 0; i < nSeq/4; i++ {
+		genBoundary(r, cw)
+	}
 	for i := 0; i < nSeq; i++ {
 		genRandom(r, cw, false)
 	}
